@@ -41,6 +41,9 @@ def bodies_with_effect(facts, crate, eng, token):
     return out
 
 
+LAST_ROLES = {}
+
+
 def idx(ef, tok, exact=False):
     for i, e in enumerate(ef):
         if e == tok or (not exact and e == "may:" + tok):
@@ -222,6 +225,8 @@ def check(facts, rep, tier, cfg):
                                     "send-loop" if "ws:start_send" in toks else "receive-loop" if "ws:poll_next" in toks else "?")
                             if role != "?" or ("_%d" % k) not in roles:
                                 roles["_%d" % k] = (role, fb.path)
+    global LAST_ROLES
+    LAST_ROLES = dict(roles)
     # ---- R7 cancel safety of the send loop: it is dropped by the select when another arm wins, so it must never hold a dequeued message across an await
     rep.rule("C08.R7", "the send-loop arm (cancelled by the select when the handle is dropped) never awaits while holding a message taken off "
                        "the outbound queue: dequeue and start_send happen in one synchronous poll step")
